@@ -96,6 +96,21 @@ func (vc *VC) parseAssigns(cls []*Clause, env *Env) (regs []region, everything b
 				for _, lf := range vc.enc.Leaves(gt) {
 					regs = append(regs, region{heap: lf.heap, all: true})
 				}
+			case strings.HasPrefix(item, "mapof(") && strings.HasSuffix(item, ")"):
+				// mapof(m): the contents (keys, values, size) of the map m
+				me, err := parseSpecExpr(item[6 : len(item)-1])
+				if err != nil {
+					specFail("assigns: %v", err)
+				}
+				mv := vc.materialize(vc.eval(me, env), env)
+				if !isMapType(mv.GoT) {
+					specFail("assigns: mapof() needs a map")
+				}
+				h := vc.mapHeap(mv.GoT)
+				addr := mv.T
+				for _, sfx := range []string{"_dom", "_val", "_size"} {
+					regs = append(regs, region{heap: h + sfx, in: func(loc string) string { return eq(loc, addr) }})
+				}
 			case strings.HasPrefix(item, "new(") && strings.HasSuffix(item, ")"):
 				// new(T): the function allocates objects of type T; their heaps change at fresh locations only
 				te, err := parseSpecExpr("type[" + item[4:len(item)-1] + "]")
